@@ -181,11 +181,17 @@ fn run_one<const N: usize, P: Pad>(
                 ctx.attribute = Some(prop);
             }
             for f in FIXED_FOLLOWUPS.iter().take(if lean { 4 } else { 8 }) {
+                if !lean {
+                    control_step(&h, &model, f, ctx, &MonCfg::FULL);
+                }
                 step(&mut h, &mut model, f, &mut env, ctx, &MonCfg::main(lean), None, None);
             }
             let mut rng = Rng::new(fseed);
             for _ in 0..(if lean { 2 } else { 8 }) {
                 let f = gen_op(&mut rng, N, model.len(), false);
+                if !lean {
+                    control_step(&h, &model, &f, ctx, &MonCfg::LIGHT);
+                }
                 step(&mut h, &mut model, &f, &mut env, ctx, &MonCfg::LIGHT, None, None);
             }
             *vc = env.vc;
